@@ -445,6 +445,114 @@ func seedAdoption(name string, iat int, bias bool, seedNo int, bound int, seed i
 	}
 }
 
+// ---- variant E: reader and writer of one endpoint at statement granularity -------
+// The endpoint's Read/readPackets/processPackets and Write/makePacket/padBurst are
+// instrumented with a scheduling point before every statement; one reader and
+// one writer thread of the same real endpoint run against the reference peer
+// with at most b preemptions at statement points.  Any state the two paths
+// share without synchronisation (a scratch buffer, a cursor) shows up as a
+// corrupted or stuck stream.
+
+func duplexStmt(name string, role string, iat int, bound int, seed int64) mc.Scenario {
+	return mc.Scenario{
+		Name:   name,
+		Params: map[string]any{"role": role, "iat": iat},
+		Bound:  bound,
+		Weight: 500,
+		Run: func(c *mc.Ctx) {
+			br := o4h.NewBridge(seed, "c01/0", iat, false)
+			o4h.SetBias(false)
+			rnd.Install(rnd.New(seed, "c01-"+name))
+			refRnd := rnd.New(seed, "c01-ref-"+name)
+			cw, sw := wire.Pipe("client", "server")
+			var hsErr, refErr, rdErr, wrErr error
+			var got []byte
+			var rs *o4h.RefSession
+			inbound := o4h.Pattern('I', 0, 300)
+			outbound := o4h.Pattern('O', 0, 200)
+			res := sched.Run(c, sched.Options{PreemptKinds: []string{"stmt"}, NoEarlyTimers: true, MaxSteps: 3_000_000}, func() {
+				s := sched.Cur()
+				var conn net.Conn
+				refDone := false
+				s.Spawn("ref-peer", func() {
+					defer func() { refDone = true }()
+					if role == "client" {
+						rs, refErr = o4h.RefServer(sw, br.ID, o4h.ServerOpts{PadLen: 4, LenSeed: br.Seed}, refRnd)
+					} else {
+						rs, _, refErr = o4h.RefClient(cw, br.ID.Pub[:], br.ID.NodeID[:], o4h.ClientOpts{PadLen: 90}, refRnd)
+					}
+					if refErr != nil {
+						return
+					}
+					rs.Send(inbound[:150], 3)
+					rs.Send(inbound[150:], 0)
+					for len(rs.Payload) < len(outbound) {
+						if _, err := rs.RecvOnce(); err != nil {
+							return
+						}
+					}
+				})
+				if role == "client" {
+					conn, hsErr = o4h.Dial(br.ClientArgs("cert", nil), cw)
+				} else {
+					sf, err := br.ServerFactory()
+					if err != nil {
+						hsErr = err
+						return
+					}
+					conn, hsErr = sf.WrapConn(sw)
+				}
+				if hsErr != nil {
+					return
+				}
+				rdone := false
+				s.Spawn("reader", func() {
+					b := make([]byte, 64)
+					for len(got) < len(inbound) {
+						n, err := conn.Read(b)
+						got = append(got, b[:n]...)
+						if err != nil {
+							rdErr = err
+							break
+						}
+					}
+					rdone = true
+				})
+				if _, err := conn.Write(outbound[:120]); err != nil {
+					wrErr = err
+				} else if _, err := conn.Write(outbound[120:]); err != nil {
+					wrErr = err
+				}
+				s.Point("join", func() bool { return rdone && refDone })
+			})
+			if len(res.Panics) > 0 {
+				fail(c, "no-panic", "duplex/panic", "%s", res.Panics[0])
+				return
+			}
+			c.Observe("out", fmt.Sprintf("hs=%v ref=%v rd=%v wr=%v got=%d", hsErr, refErr, rdErr, wrErr, len(got)))
+			if hsErr != nil || refErr != nil {
+				fail(c, "handshake", "duplex/handshake", "handshake: real=%v ref=%v", hsErr, refErr)
+				return
+			}
+			if rdErr != nil || wrErr != nil {
+				fail(c, "io-error", "duplex/io-error", "read=%v write=%v on an untampered link (delivered %d bytes)", rdErr, wrErr, len(got))
+				return
+			}
+			if !bytes.Equal(got, inbound) {
+				fail(c, "prefix", "duplex/stream-in", "the endpoint delivered %d bytes that differ from what the peer sent (first difference at %d; quiescent=%v)", len(got), firstDiff(inbound, got), res.Quiescent)
+				return
+			}
+			if rs.RxErr != nil || !bytes.HasPrefix(rs.Payload, outbound) && !bytes.HasPrefix(outbound, rs.Payload) {
+				fail(c, "prefix", "duplex/stream-out", "the peer could not decode what the endpoint wrote: %v (%d bytes)", rs.RxErr, len(rs.Payload))
+				return
+			}
+			if len(rs.Payload) < len(outbound) {
+				fail(c, "delivery", "duplex/stuck", "the peer received %d of %d bytes; blocked: %+v", len(rs.Payload), len(outbound), res.Blocked)
+			}
+		},
+	}
+}
+
 func main() {
 	mc.Main("C01", func(cfg *mc.Config, emit func(mc.Scenario)) {
 		scripts := []script{
@@ -492,6 +600,15 @@ func main() {
 		}
 		for _, bias := range []bool{false, true} {
 			emit(seedAdoption(fmt.Sprintf("seed-adoption/bias=%v", bias), 0, bias, 0, b, cfg.Seed))
+		}
+		for _, role := range []string{"client", "server"} {
+			for iat := 0; iat <= 2; iat++ {
+				db := 1
+				if cfg.Thorough() {
+					db = 2
+				}
+				emit(duplexStmt(fmt.Sprintf("duplex-stmt/%s/iat%d", role, iat), role, iat, db, cfg.Seed))
+			}
 		}
 		// reference server: handshake + payload coalesced, boundary splits
 		for iat := 0; iat <= 2; iat++ {
